@@ -125,7 +125,8 @@ def collect (st : Nat → St) : List Nat → (Nat → St) × List Nat
 
 def handles (st : Nat → St) (cs : List Nat) (_rev : Bool) : List Nat := (collect st cs).2
 
-/-- as the pinned commit had it: `create_suspend_point` took the readied handles off the *back* of the ready queue -/
+/-- as the pinned commit had it (before `/repo` commit 34c6158): `create_suspend_point` took the readied handles off the *back*
+of the ready queue -/
 def handlesAsIs (st : Nat → St) (cs : List Nat) (rev : Bool) : List Nat :=
   if rev then (collect st cs).2.reverse else (collect st cs).2
 
@@ -316,7 +317,7 @@ def step (s : State) (a : Act) : State :=
 
 def run (s : State) (acts : List Act) : State := acts.foldl step s
 
-/-! ## The unrepaired `parallel::perform_resume` (pinned commit)
+/-! ## The unrepaired `parallel::perform_resume` (pinned commit, before `/repo` commit b372584)
 
 The thread created for the awaiting coroutine called `h.resume()` directly: the coroutine ran on a thread with
 `coro_queue::instance == nullptr`. Only what is needed to exhibit the consequence is modelled: the job of such a
@@ -351,5 +352,26 @@ def stepAsIs (s : State) (a : Act) : State :=
   | _, _ => step s a
 
 def runAsIs (s : State) (acts : List Act) : State := acts.foldl stepAsIs s
+
+/-! ## The unrepaired `coro_queue::create_suspend_point` (pinned commit, before `/repo` commit 34c6158)
+
+`fn()` made the coroutines ready one after the other — each was pushed to the thread's ready queue in that order — and
+`create_suspend_point` then moved them into the returned suspend point from the *back* of the queue
+(`ss << queue.back(); pop_back()`): the suspend point held them in reverse (`handlesAsIs`), and dropping it queued them
+in reverse.  `made` keeps the order in which they were made ready. -/
+
+/-- a running coroutine drops the suspend point returned by the unrepaired `create_suspend_point` (`rev = true`) -/
+def enqueueGatherAsIs (s : State) (cs : List Nat) (rev : Bool) : State :=
+  { s with st := (collect s.st cs).1, ready := s.ready ++ handlesAsIs s.st cs rev,
+           enq := s.enq ++ handlesAsIs s.st cs rev, made := s.made ++ handles s.st cs rev }
+
+/-- the step function before `/repo` commit 34c6158 ("fix: create_suspend_point returned the readied coroutines in reverse
+order"), for the discarded suspend point of a running coroutine; everything else as `step` -/
+def stepGatherAsIs (s : State) (a : Act) : State :=
+  match s.cur, a with
+  | some _, Act.wake cs Mode.discard rev => enqueueGatherAsIs s cs rev
+  | _, _ => step s a
+
+def runGatherAsIs (s : State) (acts : List Act) : State := acts.foldl stepGatherAsIs s
 
 end Cocls.Exec
